@@ -1,7 +1,93 @@
 import SpVerif.Model.Pack
+import Mathlib.Data.List.Sort
+/-!
+# C09 — `pack_partitions` keeps every row and orders rows along the curve
+
+`Pack.pack cuts rows`: all rows (key = Hilbert distance, second component = row identity) sorted by key with a stable sort
+and cut into `cuts.length + 1` consecutive groups at *any* cut points — Dask chooses the divisions from quantiles of the
+keys; the theorems hold for every choice, so they do not depend on it.  The number of partitions Dask actually produces can
+be smaller than requested on tiny or duplicate-heavy frames (known finding D16): `C09_partition_count` is about the model's
+`cuts`, and the correspondence check compares the produced partitions with `pack` for the cut points Dask chose.
+-/
 namespace SpVerif
 open Pack
-/-- packing keeps exactly the input rows (as a multiset), whatever the cut points -/
+
+theorem flatten_cutAt {α} (cuts : List Nat) (off : Nat) (xs : List α) : (cutAt cuts off xs).flatten = xs := by
+  induction cuts generalizing off xs with
+  | nil => simp [cutAt]
+  | cons c cs ih => simp only [cutAt, List.flatten_cons, ih, List.take_append_drop]
+
+theorem length_cutAt {α} (cuts : List Nat) (off : Nat) (xs : List α) : (cutAt cuts off xs).length = cuts.length + 1 := by
+  induction cuts generalizing off xs with
+  | nil => simp [cutAt]
+  | cons c cs ih => simp only [cutAt, List.length_cons, ih]
+
+/-- the partitions, read in order, are the rows sorted by Hilbert distance -/
+theorem C09_concatenation_is_sorted_rows (cuts : List Nat) (rows : List KRow) :
+    (pack cuts rows).flatten = sortRows rows := flatten_cutAt cuts 0 _
+
+/-- packing keeps exactly the input rows (as a multiset): no row lost, none duplicated, whatever the cut points -/
+theorem C09_rows_conserved (cuts : List Nat) (rows : List KRow) : (pack cuts rows).flatten.Perm rows := by
+  rw [C09_concatenation_is_sorted_rows]
+  exact List.mergeSort_perm rows _
+
 theorem C09_sort_conserves_rows (rows : List KRow) : (sortRows rows).Perm rows :=
   List.mergeSort_perm rows _
+
+theorem sortRows_sorted (rows : List KRow) : (sortRows rows).Pairwise (fun a b => a.1 ≤ b.1) := by
+  have := List.pairwise_mergeSort (le := fun (a b : KRow) => decide (a.1 ≤ b.1))
+    (by intro a b c h1 h2; simp only [decide_eq_true_eq] at *; omega)
+    (by intro a b; simp only [Bool.or_eq_true, decide_eq_true_eq]; omega) rows
+  simpa [sortRows] using this
+
+/-- **ordering**: inside every partition the keys do not decrease, and every key of an earlier partition is `≤` every key of a
+later one -/
+theorem C09_sorted_within_and_across (cuts : List Nat) (rows : List KRow) :
+    (∀ part ∈ pack cuts rows, part.Pairwise (fun a b => a.1 ≤ b.1)) ∧
+    (pack cuts rows).Pairwise (fun p q => ∀ a ∈ p, ∀ b ∈ q, a.1 ≤ b.1) := by
+  have h := sortRows_sorted rows
+  rw [← C09_concatenation_is_sorted_rows cuts rows, List.pairwise_flatten] at h
+  exact h
+
+/-- the number of partitions is the number of cut points plus one (`npartitions`) -/
+theorem C09_partition_count (cuts : List Nat) (rows : List KRow) : (pack cuts rows).length = cuts.length + 1 :=
+  length_cutAt cuts 0 _
+
+/-- **the input partitioning is irrelevant**: rows presented in any other order (any split into input partitions, read in
+any order) give the same sequence of keys, hence — cut at the same points — partitions with the same keys; with distinct
+keys the partitions are identical -/
+theorem C09_input_partitioning_irrelevant (cuts : List Nat) (rows rows' : List KRow) (hp : rows.Perm rows') :
+    (sortRows rows).map (·.1) = (sortRows rows').map (·.1) ∧
+    ((rows.map (·.1)).Nodup → pack cuts rows = pack cuts rows') := by
+  have hs := sortRows_sorted rows
+  have hs' := sortRows_sorted rows'
+  have hperm : (sortRows rows).Perm (sortRows rows') :=
+    (C09_sort_conserves_rows rows).trans (hp.trans (C09_sort_conserves_rows rows').symm)
+  constructor
+  · apply List.Perm.eq_of_pairwise (le := fun (a b : Nat) => a ≤ b)
+    · intro a b _ _ h1 h2; omega
+    · exact (List.pairwise_map).mpr hs
+    · exact (List.pairwise_map).mpr hs'
+    · exact hperm.map _
+  · intro hnd
+    have hnd' : ((sortRows rows).map (·.1)).Nodup := (hperm.map _).nodup_iff.mpr ((hperm.map _).nodup_iff.mp
+      (((C09_sort_conserves_rows rows).map _).nodup_iff.mpr hnd))
+    have : sortRows rows = sortRows rows' := by
+      apply List.Perm.eq_of_pairwise (le := fun (a b : KRow) => a.1 ≤ b.1)
+      · intro a b ha hb h1 h2
+        have hk : a.1 = b.1 := by omega
+        have hb' : b ∈ sortRows rows := hperm.mem_iff.mpr hb
+        exact List.inj_on_of_nodup_map hnd' ha hb' hk
+      · exact hs
+      · exact hs'
+      · exact hperm
+    unfold pack
+    rw [this]
+
+/-! non-vacuity: the hypotheses of `C09_input_partitioning_irrelevant` are satisfiable by a real reordering with distinct keys;
+cutting a sorted five-row sequence at two points (the driver evaluates `pack` itself on every correspondence case) -/
+example : ([(7, 0), (1, 1), (4, 2)] : List KRow).Perm [(4, 2), (7, 0), (1, 1)] ∧
+    (([(7, 0), (1, 1), (4, 2)] : List KRow).map (·.1)).Nodup := by decide
+example : cutAt [2, 3] 0 [(1, 1), (4, 2), (4, 4), (7, 0), (9, 3)] = [[(1, 1), (4, 2)], [(4, 4)], [(7, 0), (9, 3)]] := by decide
+
 end SpVerif
